@@ -1,4 +1,5 @@
 """C19 - streaming content decoding equals one-shot decoding for every split."""
+from typing import List
 import zlib as _realzlib
 
 from harness.common import hit, pick
@@ -82,6 +83,12 @@ def _empty_piece(kind_i, b1, at, c1, real=False):
 
 def _empty_piece_real(kind_i, b1, at, c1):
     return _empty_piece(kind_i, b1, at, c1, real=True)
+
+
+def _decoder_not_reused(kind_i, p1, fr2, b2, cuts, raw2=False):
+    """Identity body after a coded body on the same Stream (harness shared with C08)."""
+    from harness import c08
+    return c08._coded_then_plain(kind_i, p1, fr2, b2, cuts, raw2)
 
 
 def _split_equals_oneshot_real(kind_i, b1, b2, two_blocks, c1, c2, c3):
@@ -223,6 +230,14 @@ HARNESSES = [
              'wpull/protocol/http/stream.py:Stream._flush_decompressor', 'wpull/protocol/http/stream.py:Stream._setup_decompressor'],
       doc='for gzip / zlib / raw deflate bodies (1-2 stored blocks, symbolic payload bytes) every way of cutting the encoded body into '
           '<=4 non-empty pieces (first piece of one byte included) yields, after flush, exactly the payload = the one-shot result'),
+    H('decoder_not_reused', '_decoder_not_reused', 'kind_i: int, p1: bytes, fr2: int, b2: bytes, cuts: List[int], raw2: bool',
+      pre={'quick': ['0 <= kind_i <= 2 and len(p1) <= 1 and fr2 == 0 and len(b2) <= 1 and len(cuts) <= 1'],
+           'thorough': ['0 <= kind_i <= 2 and len(p1) <= 2 and 0 <= fr2 <= 1 and len(b2) <= 3 and len(cuts) <= 3']},
+      parts=[{'tag': k, 'fix': {'kind_i': str(i)}} for i, k in enumerate(['gzip', 'zlib', 'raw'])],
+      timeout={'quick': 250, 'thorough': 1200}, samples=[(0, b'a', 0, b'xy', [], False), (1, b'a', 0, b'x', [2], True)], need=['second-plain'],
+      funcs=['wpull/protocol/http/stream.py:Stream._setup_decompressor', 'wpull/protocol/http/stream.py:Stream.read_body'],
+      doc='identity bodies: after a gzip / deflate coded response the next, identity, response on the same Stream is delivered verbatim '
+          '(the finished decoder of the first body is not fed the second)'),
     H('empty_piece', '_empty_piece', 'kind_i: int, b1: bytes, at: int, c1: int',
       pre=['0 <= kind_i <= 2 and len(b1) <= 1 and 0 <= at <= 2 and 0 <= c1 <= 12'],
       parts=[{'tag': k, 'fix': {'kind_i': str(i)}} for i, k in enumerate(_KINDS)],
